@@ -132,6 +132,64 @@ pub fn check_xor(ctx: &mut Ctx, a: &RefAddr, tid: &[u8; 12], through_message: bo
     }
 }
 
+/// IPv6 socket addresses also carry a flow label and a scope id, which XOR-MAPPED-ADDRESS cannot
+/// carry: for those inputs the address and the port still come back (the unmodified code returns
+/// them with flow label and scope 0), and nothing panics.
+fn check_scoped(ctx: &mut Ctx, a: &RefAddr, tid: &[u8; 12], flowinfo: u32, scope: u32) {
+    if !a.v6 {
+        return;
+    }
+    ctx.eval();
+    let w = || {
+        let mut v = wit(a, tid);
+        v["flowinfo"] = json!(flowinfo);
+        v["scope_id"] = json!(scope);
+        v
+    };
+    let t = imp::tid_from_bytes(tid);
+    let sa = std::net::SocketAddr::V6(std::net::SocketAddrV6::new(std::net::Ipv6Addr::from(a.ip), a.port, flowinfo, scope));
+    let r = guard(|| {
+        let x = XorMappedAddress::new(sa, t);
+        (x.addr(t), x.to_raw().value.to_vec())
+    });
+    match r {
+        Err(p) => ctx.violation("C13", "no-panic", "XorMappedAddress::new", "ipv6,scoped", w, "an attribute".into(), format!("panic: {} at {}", p.msg, p.loc)),
+        Ok((back, wire)) => {
+            let want = ref_encode(Kind::XorMappedAddress, &RefVal::Addr(a.clone()), tid).unwrap();
+            if back.ip() != sa.ip() || back.port() != sa.port() || wire != want {
+                ctx.violation("C13", "addr-roundtrip", "XorMappedAddress::{new,addr}", "ipv6,scoped", w, format!("{} port {} / {}", sa.ip(), sa.port(), hex(&want)), format!("{back} / {}", hex(&wire)));
+            }
+            ctx.count("scoped-ipv6-addresses");
+        }
+    }
+}
+
+/// State carried between calls on one thread (a memo, a cache) shows on the *first* call: the
+/// boundary cases are also run as the very first thing a freshly spawned thread does.
+fn check_on_fresh_thread(ctx: &mut Ctx, a: &RefAddr, tid: &[u8; 12]) {
+    let (a2, t2) = (a.clone(), *tid);
+    let (prop, tier, seed, shard, nshards) = (ctx.prop.clone(), ctx.tier, ctx.seed, ctx.shard, ctx.nshards);
+    let h = std::thread::spawn(move || {
+        let mut c2 = Ctx::new_quiet(&prop, tier, seed, shard, nshards);
+        check_xor(&mut c2, &a2, &t2, true);
+        c2.violations.clone()
+    });
+    match h.join() {
+        Ok(viols) => {
+            for v in viols {
+                let sig = v["signature"].as_str().unwrap_or("").to_string();
+                let parts: Vec<&str> = sig.split('|').collect();
+                if parts.len() >= 4 {
+                    ctx.violation(parts[0], parts[1], parts[2], &format!("{},first-call-on-a-fresh-thread", parts[3]), || v["witness"].clone(), v["expected"].as_str().unwrap_or("").to_string(), v["observed"].as_str().unwrap_or("").to_string());
+                }
+            }
+            ctx.count("fresh-thread-first-calls");
+        }
+        Err(_) => ctx.violation("C13", "no-panic", "XorMappedAddress", "fresh-thread", || wit(a, tid), "thread completes".into(), "thread panicked".into()),
+    }
+    ctx.eval();
+}
+
 fn mk(v6: bool, ip: &[u8], port: u16) -> RefAddr {
     let mut a = [0u8; 16];
     a[..ip.len()].copy_from_slice(ip);
@@ -186,6 +244,29 @@ pub fn run(ctx: &mut Ctx) {
                     check_xor(ctx, &a, &t, false);
                     ctx.distinct(hash64(&[9, v6 as u64, pos as u64, val as u64, t[0] as u64]));
                 }
+            }
+        }
+    }
+    // boundary (address, id) pairs as the first call of a fresh thread, and scoped IPv6 inputs
+    if !cfg!(miri) {
+        for (ti, t) in tids.iter().enumerate().take(6) {
+            for (ai, a) in base_addrs.iter().enumerate() {
+                idx += 1;
+                if !ctx.mine(idx) {
+                    continue;
+                }
+                check_on_fresh_thread(ctx, a, t);
+                let _ = (ti, ai);
+            }
+        }
+    }
+    for (ai, a) in base_addrs.iter().enumerate().filter(|(_, a)| a.v6) {
+        for (flow, scope) in [(0u32, 1u32), (1, 0), (0xfffff, 0xffff_ffff), (0x12345, 7)] {
+            idx += 1;
+            if ctx.mine(idx) {
+                check_scoped(ctx, a, &tids[ai % 3], flow, scope);
+                let ll = mk(true, &[0xfe, 0x80, 0, 0, 0, 0, 0, 0, 2, 0x11, 0x22, 0xff, 0xfe, 0x33, 0x44, 0x55], 3478);
+                check_scoped(ctx, &ll, &tids[(ai + 1) % 3], flow, scope);
             }
         }
     }
@@ -272,6 +353,8 @@ pub fn run(ctx: &mut Ctx) {
     ctx.require("ipv4", 100_000);
     ctx.require("ipv6", 100_000);
     ctx.require("special-range-addresses", 1_000);
+    ctx.require("fresh-thread-first-calls", 30);
+    ctx.require("scoped-ipv6-addresses", 20);
 }
 
 pub fn replay(ctx: &mut Ctx, w: &Value) -> Result<(), String> {
